@@ -54,6 +54,7 @@ structure Cfg where
   respNil      : Bool     -- DistKeyGenerator.ProcessResponse: nil Response rejected
   respVerOk    : Bool     -- DistKeyGenerator.ProcessResponse: `v, ok := d.verifiers[..]`
   pubKeyLen    : Bool     -- decodePubKey length check
+  peerRespNil  : Bool     -- handlePeerMsg: responses without Response sub-message are not compared
   -- share/vss/pedersen
   encNil       : Bool     -- decryptDeal: `e == nil`
   nonceLen     : Bool     -- decryptDeal: nonce length check before gcm.Open
@@ -86,7 +87,7 @@ structure Cfg where
 
 def Cfg.all : Cfg :=
   { xpubCastSelf := true, xpubCastPeer := true, gdkgGuard := true, dealsDkgNil := true, dealsCast := true,
-    respsDkgNil := true, respsCast := true, findPubDkg := true, respNil := true, respVerOk := true, pubKeyLen := true,
+    respsDkgNil := true, respsCast := true, findPubDkg := true, respNil := true, respVerOk := true, pubKeyLen := true, peerRespNil := true,
     encNil := true, nonceLen := true, secShareNil := true, shareVNil := true, findPubVss := true, aggNil := true,
     toBigLen := true, qloopOk := true, qloopCast := true, rsNil := true, rsMake := true, groupInfoIds := true,
     byte32Len := true, crRand := true, sigIdxLen := true, recoverDedup := true, anyNil := true, ridCast := true,
@@ -111,7 +112,7 @@ def ainsert {β : Type} (k : String) (v : β) (m : List (String × β)) : List (
 inductive Item where
   | pk (idx : Nat)
   | deal (idx : Nat)
-  | resp
+  | resp (dealer : Nat) (responder : Option Nat)     -- `responder = none`: `Response == nil`
   deriving DecidableEq, Repr
 
 /-- a registered `request`: expected count and the identity of its reply channel -/
@@ -132,16 +133,24 @@ structure Sess where
 def isDup (cur : List Item) : Item → Bool
   | .pk i => cur.any (fun x => match x with | .pk j => i == j | _ => false)
   | .deal i => cur.any (fun x => match x with | .deal j => i == j | _ => false)
-  | .resp => false
+  | .resp d (some r) => cur.any (fun x => match x with | .resp d' (some r') => d == d' && r == r' | _ => false)
+  | .resp _ none => false
 
 /-- fire: `select {ctx.Done / reply <- list}; close(reply); delete; delete` -/
 def fire (s : Sess) (sid : String) (r : Req) (k : Nat) (site : String) : Sess × Out :=
   if r.chan ∈ s.closed then ({ s with alive := false }, .panic site)
   else ({ s with buf := aerase sid s.buf, req := aerase sid s.req, closed := r.chan :: s.closed }, .ok s!"fire {k}")
 
-def handlePeerMsg (s : Sess) (sid : String) (it : Item) : Sess × Out :=
+/-- the de-duplication of responses dereferences `Response` of the new and of the buffered ones -/
+def respDeref (cfg : Cfg) (cur : List Item) : Item → Bool
+  | .resp _ none => !cfg.peerRespNil && cur.any (fun x => match x with | .resp _ _ => true | _ => false)
+  | .resp _ (some _) => !cfg.peerRespNil && cur.any (fun x => match x with | .resp _ none => true | _ => false)
+  | _ => false
+
+def handlePeerMsg (cfg : Cfg) (s : Sess) (sid : String) (it : Item) : Sess × Out :=
   let cur := (alookup sid s.buf).getD []
-  if isDup cur it then (s, .ok "dup")
+  if respDeref cfg cur it then ({ s with alive := false }, .panic "dkg.handlePeerMsg|deref|respFromPeer.Response.Index")
+  else if isDup cur it then (s, .ok "dup")
   else
     let cur' := cur ++ [it]
     let s1 := { s with buf := ainsert sid cur' s.buf }
@@ -166,15 +175,15 @@ inductive SessEv where
   | req (sid : String) (num : Int)
   deriving Repr
 
-def sessStep (s : Sess) : SessEv → Sess × Out
-  | .msg sid it => if s.alive then handlePeerMsg s sid it else (s, .dropped)
+def sessStep (cfg : Cfg) (s : Sess) : SessEv → Sess × Out
+  | .msg sid it => if s.alive then handlePeerMsg cfg s sid it else (s, .dropped)
   | .req sid num => if s.alive then handleRequest s sid num else (s, .dropped)
 
-def sessRun : Sess → List SessEv → Sess × List Out
+def sessRun (cfg : Cfg) : Sess → List SessEv → Sess × List Out
   | s, [] => (s, [])
   | s, e :: es =>
-    let (s1, o) := sessStep s e
-    let (s2, os) := sessRun s1 es
+    let (s1, o) := sessStep cfg s e
+    let (s2, os) := sessRun cfg s1 es
     (s2, o :: os)
 
 /-! ### 2. `exchangePub` -/
@@ -310,6 +319,10 @@ structure DkgSt where
   dealerResps : List Nat := []         -- responses recorded by the own dealer's aggregator
   deriving Repr
 
+/-- the generator as the deal stage finds it: `Deals()` has processed the own deal
+(own verifier with the own response recorded; the dealer's aggregator is still empty) -/
+def DkgSt.init (n me : Nat) : DkgSt := { n := n, me := me, vers := [(me, .agg [me])] }
+
 def vlookup (k : Nat) : List (Nat × VerSt) → Option VerSt
   | [] => none
   | (k', v) :: r => if k' = k then some v else vlookup k r
@@ -363,6 +376,10 @@ def processDeal (cfg : Cfg) (st : DkgSt) (m : DealMsg) : DkgSt × Out :=
       -- aggregator created; own response recorded, then UnsafeSetResponseDKG(dealer index)
       let st2 := { st with vers := vset m.idx (.agg [st.me, m.idx].eraseDups) st.vers }
       (st2, if approve then .ok "approval" else .err "noapproval")
+
+/-- an honest deal for verifier `me` from dealer `idx` with threshold `t` -/
+def honestDeal (idx me t : Nat) : DealMsg :=
+  DealMsg.mk idx (some (Enc.mk true true 12 (Opened.plain (Plain.mk (some (me, true)) t true true))))
 
 /-! ### 5. `ProcessResponse` → `verifyResponse` -/
 
